@@ -110,14 +110,15 @@ def format_binary_line(data):
 
 
 def safe_string(s):
-    out = b""
-    for c in s:
-        i = byte_ord(c)
-        if 32 <= i <= 127:
-            out += byte_chr(i)
-        else:
-            out += b("%{:02X}".format(i))
-    return out
+    # NOTE: table + join; repeated bytes concatenation is quadratic, and a
+    # peer can hand us strings of up to a megabyte (e.g. in a debug message)
+    table = [
+        byte_chr(i) if 32 <= i <= 127 else b("%{:02X}".format(i))
+        for i in range(256)
+    ]
+    if not isinstance(s, (bytes, bytearray)):
+        s = map(byte_ord, s)
+    return b"".join(map(table.__getitem__, s))
 
 
 def bit_length(n):
